@@ -65,6 +65,11 @@ def cells(tier, seed):
             for o2 in BINOPS:
                 for o3 in BINOPS:
                     out.append({"k": "prec", "ops": [o1, o2, o3], "kinds": ["int"] * 4})
+    stateful = list(CMP) + ["and", "or"]
+    for o1 in BINOPS:
+        for o2 in BINOPS:
+            if o1 in stateful and o2 in stateful or (tier != "quick"):
+                out.append({"k": "reeval", "ops": [o1, o2]})
     for op in ("add", "sub", "mul", "div", "mod"):
         out.append({"k": "exact", "op": op, "via": "native"})
         out.append({"k": "exact", "op": op, "via": "program"})
@@ -313,6 +318,8 @@ def run(ctx, cell):
     k = cell["k"]
     if k == "prec":
         return run_prec(ctx, cell)
+    if k == "reeval":
+        return run_reeval(ctx, cell)
     if k == "exact":
         return run_exact(ctx, cell)
     if k == "kinds":
@@ -392,6 +399,61 @@ def run_prec(ctx, cell):
     except Unspec:
         ref = ("unspec",)
     compare_outcome(ctx, key, out, ref, detail)
+    return out
+
+
+def run_reeval(ctx, cell):
+    """the same parsed expression (a function body / a loop body) evaluated twice with independent
+    operand values: each evaluation must be right on its own (no state kept in the tree)"""
+    ops = cell["ops"]
+    key = "C02:reeval:%s" % " ".join(ops)
+    hasdiv = any(o in ("/", "%") for o in ops)
+    kinds = ("int", "int", "int") if ctx.choice("kinds", 2) == 0 else ("bool", "bool", "bool")
+    envs, refs = [], []
+    for r in range(2):
+        er, e = {}, {}
+        for n, kd in zip("abc", kinds):
+            er[n], e[n] = mkval(ctx, kd, "%s%d" % (n, r), 50, hasdiv and n != "a")
+        envs.append(e)
+        refs.append(er)
+    items = [("", "a"), ops[0], ("", "b"), ops[1], ("", "c")]
+    try:
+        tree = ref_parse(list(items))
+    except SyntaxError:
+        return ["no claim"]
+    text = ("def f(a, b, c) a %s b %s c; def r1 = do f(a0, b0, c0) catch all 'E' end; "
+            "def r2 = do f(a1, b1, c1) catch all 'E' end; [r1, r2, r1, r2]" % (ops[0], ops[1]))
+    env = {}
+    for r in range(2):
+        for n in "abc":
+            env["%s%d" % (n, r)] = envs[r][n]
+    out = run_ckl(text, env)
+    detail = lambda: {"text": text, "values": {k_: ctx.plain(v) for k_, v in env.items()}, "got": ctx.plain(out)}
+    if out.kind != "ok":
+        if out.kind == "host":
+            ctx.fail("%s:host-exception:%s" % (key, out.hostname()), detail)
+        return out
+    res = out.value.value
+    for r in range(2):
+        try:
+            ref = ("val", ref_eval(tree, refs[r]))
+        except Err:
+            ref = ("err",)
+        except Unspec:
+            continue
+        for got in (res[r], res[2 + r]):
+            if ref[0] == "err":
+                ctx.check(got == vstr("E"), key + ":evaluation-%d-missing-error" % r, detail)
+            else:
+                v = ref[1]
+                if v[0] == "null":
+                    ctx.check(got.isNull(), key + ":evaluation-%d-wrong" % r, detail)
+                elif v[0] == "bool":
+                    if ctx.check(got.isBoolean(), key + ":evaluation-%d-wrong" % r, detail):
+                        ctx.check(got.value == v[1], key + ":evaluation-%d-wrong" % r, detail)
+                else:
+                    if ctx.check(got.isInt(), key + ":evaluation-%d-wrong" % r, detail):
+                        ctx.check(got.value == v[1], key + ":evaluation-%d-wrong" % r, detail)
     return out
 
 
